@@ -24,7 +24,7 @@ META = {
     "encoded": ["csr.bus.Decoder.__init__", "csr.bus.Decoder.add", "csr.bus.Decoder.align_to",
                 "csr.bus.Decoder.elaborate", "memory.MemoryMap.add_window", "memory.MemoryMap.window_patterns",
                 "memory.MemoryMap.windows", "memory.MemoryMap._compute_addr_range"],
-    "also": 'a refused add() (out-of-bounds address) left attached as an arbitrary bus; decoders elaborated once after k adds and extended afterwards; the ranges returned by add() are the oracle and windows() must agree; 12/16-bit address decoders; a single window filling the whole address space, a lone window smaller than it; flat-vs-tree bounded miter',
+    "also": 'a refused add() (out-of-bounds address) left attached as an arbitrary bus; decoders elaborated once after k adds and extended afterwards; the ranges returned by add() are the oracle and windows() must agree; 12/16-bit address decoders; a single window filling the whole address space, a lone window smaller than it; a subordinate whose memory map object is also a window of a second decoder; flat-vs-tree bounded miter',
     "bounds": "addr width 3-7 (thorough 3-9), data width 8/16, 0-4 (thorough 0-6) subordinate windows of width "
               "1..aw-1, implicit / explicit aligned / align_to placement, decoder alignment 0-3 including alignment "
               "larger than a window (padded windows), named and anonymous, seeded add orders, one level of nesting",
@@ -60,6 +60,13 @@ def _build(cfg):
             # the decoder is elaborated (e.g. a partial system is simulated) and extended afterwards
             from amaranth.hdl import Fragment
             Fragment.get(dec, None)
+    if cfg.get("shared_map") and subs:
+        # the memory map of the first subordinate is ALSO the window of a subordinate of a second, unrelated decoder
+        dec2 = csr.Decoder(addr_width=cfg["aw"], data_width=cfg["dw"], alignment=cfg["align"])
+        port_b = csr.Interface(addr_width=cfg["subs"][0]["aw"], data_width=cfg["dw"], path=("port_b",))
+        port_b.memory_map = subs[0].memory_map
+        dec2.add(port_b)
+        dec._verif_other = (dec2, port_b)
     rejected = []
     if cfg.get("rejected"):
         # an add() that is refused (out-of-bounds explicit address) must leave no trace in the hardware
@@ -83,7 +90,7 @@ def configs(tier, seed):
         tries += 1
         aw = rnd.randint(3, 7 if tier == "quick" else 9) if tries % 25 else rnd.choice([12, 16])
         cfg = {"aw": aw, "dw": rnd.choice([8, 16]), "align": rnd.choice([0, 0, 0, 1, 2, 3]), "subs": [],
-               "rejected": rnd.random() < 0.3, "staged": rnd.choice([None, None, 1, 2])}
+               "rejected": rnd.random() < 0.3, "staged": rnd.choice([None, None, 1, 2]), "shared_map": tries % 5 == 2}
         for i in range(rnd.randint(1, 4 if tier == "quick" else 6)):
             s = {"aw": rnd.randint(1, aw - 1), "named": rnd.random() < 0.5, "res": rnd.random() < 0.7}
             mode = rnd.choice(["implicit", "implicit", "explicit", "align_to"])
